@@ -11,7 +11,14 @@
 
 namespace {
 
-struct tagged : std::exception { int tag; explicit tagged(int t) : tag(t) {} const char* what() const noexcept override { return "tagged test exception"; } };
+int g_live_exceptions = 0;   // user exception objects alive (thrown originals and the copies the library keeps)
+struct tagged : std::exception {
+    int tag;
+    explicit tagged(int t) : tag(t) { ++g_live_exceptions; }
+    tagged(const tagged& o) : std::exception(o), tag(o.tag) { ++g_live_exceptions; }
+    ~tagged() override { --g_live_exceptions; }
+    const char* what() const noexcept override { return "tagged test exception"; }
+};
 
 enum Site { S_BODY, S_RANGE_COPY, S_RANGE_SPLIT, S_BODY_SPLIT, S_JOIN, S_NSITES };
 const char* const kSite[] = {"body", "range-copy", "range-split", "body-split", "join"};
@@ -163,6 +170,8 @@ SIM_SCENARIO(scen_c03, "c03", "C03", 6000000, 30000) {
         g_ctx = hx::fmt("algo=%s sites=%s", kAlgo[s.a], sites.c_str());
     }
 
+    g_live_exceptions = 0;
+    {
     tbb::task_group tg;
     tbb::flow::graph g;
     tbb::flow::function_node<int, int> fn(g, tbb::flow::unlimited, [](int x) { body_work(); return x; });
@@ -209,4 +218,6 @@ SIM_SCENARIO(scen_c03, "c03", "C03", 6000000, 30000) {
         if (rd.thrown.size() >= 2) sim::probe("several-throwers");
         R = nullptr;
     }
+    }   // task_group, graph and their contexts are gone: every captured exception must have been released
+    SIM_CHECK(g_live_exceptions == 0, "oracle:object-balance", "[%s] %d user exception object(s) captured by the library were never destroyed", g_ctx.c_str(), g_live_exceptions);
 }
